@@ -84,7 +84,9 @@ func init() {
 				// Go functions nested in container attributes
 				"sub": ugo.Map{"answer": &ugo.Function{Name: "answer", Value: func(args ...ugo.Object) (ugo.Object, error) { return ugo.Int(42), nil }},
 					"deep": ugo.Map{"f": &ugo.Function{Name: "f", Value: func(args ...ugo.Object) (ugo.Object, error) { return ugo.String("deep"), nil }}}},
-				"fns": ugo.Array{&ugo.Function{Name: "first", Value: func(args ...ugo.Object) (ugo.Object, error) { return ugo.Int(len(args)), nil }}}})
+				"fns": ugo.Array{&ugo.Function{Name: "first", Value: func(args ...ugo.Object) (ugo.Object, error) { return ugo.Int(len(args)), nil }}},
+				// attribute names of every shape: empty, with spaces / quotes / non-ASCII / invalid UTF-8, long
+				"": ugo.Int(7), " ": ugo.String("space"), "a b\"c": ugo.Int(8), "\u00e9\xff": ugo.Int(9), strings.Repeat("k", 300): ugo.Int(10)})
 			var src string
 			switch c.Pos {
 			case "main":
@@ -108,7 +110,7 @@ func init() {
 			case "closure-free":
 				src = pre + "x := " + lit + "\nf := func() { return x }\nreturn f()"
 			case "builtin-module":
-				src = pre + "bm := import(\"bm\")\nreturn [bm.i, bm.f, bm.s, bm.b, bm.u, bm.c, bm.t, bm.a, bm.m, bm.fn(), bm.sub.answer(), bm.sub.deep.f(), bm.fns[0](1, 2), " + lit + "]"
+				src = pre + "bm := import(\"bm\")\nks := []\nfor k, _ in bm { ks = append(ks, k) }\nreturn [bm.i, bm.f, bm.s, bm.b, bm.u, bm.c, bm.t, bm.a, bm.m, bm.fn(), bm.sub.answer(), bm.sub.deep.f(), bm.fns[0](1, 2), bm[\"\"], bm[\" \"], bm[\"a b\\\"c\"], bm[\"\\u00e9\\xff\"], bm[\"" + strings.Repeat("k", 300) + "\"], len(bm), sort(ks), " + lit + "]"
 			}
 			r := N{"tok": c.Tok, "pos": c.Pos, "src": src, "ok": true}
 			func() {
